@@ -338,6 +338,29 @@ def run(ctx):
             leak = [x for x in nexts + hc.return_blocks() if x in r]
             ctx.ob("R-C07.6", hc, "arm-%s-consults-write-set" % nme, not leak,
                    "Read::%s arm queries the other transaction's key set on every path" % nme if not leak else "Read::%s arm can fall through without looking at the other transaction's writes" % nme, hc.loc(tg))
+        # "no conflict" is concluded only after EVERY keyspace of the read set was checked: inside the loop over the read
+        # set's keyspaces the function may leave only with `true`; `false` is the answer of the exhausted loop alone
+        outer = [b for b, t in hc.calls() if A.cname(t).endswith("::next") and "Iterator" in (t.get("callee") or "") and A.in_cycle(hc, b)
+                 and any(x.k == "call" and x.a[0].startswith("std::sync::Mutex") for x in A.walk(og.of_operand(t["args"][0])))]
+        # the outermost loop head: the `next` whose block dominates the other loop heads
+        heads = [b for b in nexts if A.in_cycle(hc, b)]
+        oh = [h for h in heads if all(h == o or A.dominates(hc, h, o) for o in heads)]
+        okx = False
+        detail = "loop over the read set not found"
+        if oh:
+            h = oh[0]
+            sw = A.switch_after_call(hc, h)
+            exits_ok = True
+            body_starts = []
+            if sw is not None:
+                _, labels = A.switch_info(hc, sw)
+                body_starts = [tg for tg, names in labels.items() if "Some" in names]
+            if body_starts:
+                vals = A.consts_at_return(hc, body_starts, avoid=[h])
+                okx = vals <= {("bool", True)}
+                detail = "inside the loop over the read set's keyspaces has_conflict returns only `true`; `false` needs the loop to be exhausted" if okx else \
+                    "has_conflict can answer `false` from inside the loop over the read set's keyspaces (returns %s before the loop is exhausted): the keyspaces not yet visited are never validated — cross-keyspace write skew commits" % sorted(map(str, vals))
+        ctx.ob("R-C07.6", hc, "no-conflict-only-after-all-keyspaces", okx, detail)
         # the sets compared: own reads vs OTHER's conflict keys
         ok = False
         for b, t in hc.calls():
